@@ -463,16 +463,14 @@ class Executor:
         anyhit = z3.BoolVal(False)
         for addr, local, prefix, sub in cands:
             hit = p == bv(addr, PTR_W)
-            res = ite_val(hit, self.read_local_or_zero(ctx, local, prefix, sub), res)
+            try:
+                v = self.read_local(ctx, local, prefix, sub)
+            except Unsupported:
+                continue   # that local has no value here (dead): a hit on it counts as a wild pointer below
+            res = ite_val(hit, v, res)
             anyhit = z3.Or(anyhit, hit)
         ctx.raise_flag("wild", z3.Not(anyhit))
         return res
-
-    def read_local_or_zero(self, ctx, local, prefix, sub):
-        try:
-            return self.read_local(ctx, local, prefix, sub)
-        except Unsupported:
-            return zero_val(sub)
 
     def cell_rw(self, ctx, p, width, what):
         """Resolve pointer p to shared cells of `width`: returns (read expr, writer(new expr))."""
